@@ -20,6 +20,11 @@ theorem C05_typestrings_total (s : TypeStr.Str) : (TypeStrFixed.parseType s).cra
   | crash x => exact absurd hc (C05TypeStr.parseType_fixed_noCrash s x)
   | _ => rfl
 
+/-- fix-8: the translated class string is at most 18 times as long as the input (the unchanged
+function grows exponentially: C05.C05_cex_typestring_alloc) -/
+theorem C05_typestring_alloc_bound (t : TypeStr.Str) :
+    (TypeStr.apacheToCassandraTypeFx true t).length ≤ 18 * t.length := C05TypeStr.apacheFixed_len t
+
 /-- every version, direction, flags, opcode and body: parseFrame raises no run-time panic (fix-2, fix-3) -/
 theorem C05_frame_total (proto : Nat) (resp : Bool) (flags op : Nat) (body : FrameCrash.Bytes) :
     (FrameCrashFixed.parseFrame proto resp flags op body).crashSite = none := by
